@@ -40,8 +40,8 @@ class ParseTree:
                 del derivations[0]
             for derivation in derivations:
                 res.append(start + derivation + end)
-            if derivation:
-                start = start + derivation
+            if derivations:
+                start = start + derivations[-1]
             else:
                 start.append(son.value)
         return res
@@ -70,7 +70,10 @@ class ParseTree:
                 del derivations[0]
             for derivation in derivations:
                 res.append(start + derivation + end)
-            end = derivation + end
+            if derivations:
+                end = derivations[-1] + end
+            else:
+                end = [son.value] + end
         return res
 
     def to_networkx(self):
